@@ -72,16 +72,14 @@ func tryFindFirstCharClass(node *RegexNode, ccIn **CharSet) int {
 			*ccIn = cc
 		}
 		if cc.IsMergeable() {
-			cc.addChar(node.Ch)
-			cc.negate = true
-			/*if node.Ch > 0 {
+			if node.Ch > 0 {
 				// Add the range before the excluded char.
 				cc.addRange(0, (node.Ch - 1))
 			}
 			if node.Ch < unicode.MaxRune {
 				// Add the range after the excluded char.
 				cc.addRange(node.Ch+1, unicode.MaxRune)
-			}*/
+			}
 			if node.T == NtNotone || node.M > 0 {
 				return 1
 			}
